@@ -13,7 +13,11 @@ QPts == <<(<<0,0,0>>), (<<1,0,0>>), (<<2,0,0>>), (<<1,1,1>>), (<<0,2,0>>)>>
 Excls == << {}, {0}, {1, 0} >>
 Queries == [i \in 1..Len(QPts) |->
               [p |-> QPts[i], close |-> TooClose(QPts[i]),
-               inr |-> [j \in 1..Len(Excls) |-> SetToSortSeq(InRange(QPts[i], Excls[j]), <)]]]'
+               inr |-> [j \in 1..Len(Excls) |-> SetToSortSeq(InRange(QPts[i], Excls[j]), <)],
+               \* squared minimum-image distance to every node's stored position (-1: not positioned); the replay asks
+               \* pbc_min_dist(point, get_point(node)) - the way RandomWalk.checks_milestones uses the engine - and then
+               \* compares the whole state again: a query must not change what the engine holds (QueryPure)
+               d2 |-> [k \in 1..Cardinality(Nodes) |-> LET n == k - 1 IN IF pos[n] = None THEN -1 ELSE D2(QPts[i], pos[n])]]]'
 XInit == Init /\ hist = <<>>
 XNext == Next /\ hist' = Append(hist, [op |-> last', post |-> [pos |-> pos', defined |-> defined', trees |-> trees'], q |-> Queries])
 XSpec == XInit /\ [][XNext]_<<vars, hist>>
